@@ -18,6 +18,7 @@ STYLES = {
     "refactor": "This time write the change as a maintainer would while doing ordinary upkeep: a performance optimisation (buffer reuse, early exit, avoiding an allocation or a second pass), a de-duplication of two similar code paths into one helper, a port of a newer upstream (osu!lazer) behaviour that is subtly different, a clippy-driven rewrite (float comparison, integer casts, iterator chains), or a change of a numeric type / rounding site. The diff should read as a reasonable commit with a sensible message; the breakage should be an unintended side effect that needs particular data to show.",
     "boundary": "This time make the breakage depend on a BOUNDARY or RARE VALUE: a numeric field exactly at a limit of the format (+-2^31-1, +-131072, 9000, 0, -0, the smallest/largest accepted value), a value on which single and double precision disagree, a count exactly at a threshold used by the code or by the standard library (an empty or one-element list, 20/21 elements for sorting, a buffer exactly full, a length exactly equal to a cumulative length), an unusual-but-valid combination of game mode and object kind, a rarely used optional field, or a character at the edge of an encoding range. Everything else must behave exactly as before, so that only a test which deliberately includes that boundary can see the change.",
     "sequence": "This time make the breakage depend on HISTORY: something that only goes wrong on the second or later use of a long-lived value (a reused buffer, a cached result, decoder state kept across lines, a map that is encoded twice or decoded-edited-encoded, an iterator that is abandoned and replaced, a reader that returns short chunks or transient errors in a particular order), or on the ORDER of records in the file (a section that appears twice, lines out of chronological order, a key repeated with a valid and an invalid value, a line that is rejected between two accepted ones). A single fresh call on an ordinary file must behave exactly as before.",
+    "adversarial": "Assume the property is being checked by an automated harness of the usual kind: random and grammar-based input generators, exhaustive enumeration over small alphabets, differential comparison between API variants and against a reference model written from the property text, sanitizer builds. Think about what such a harness is LEAST likely to exercise - a code path reached only through an unusual but public entry point or accessor, an interaction between two features that are each tested alone (a game mode with an object kind, an encoding with a line ending, a cache with an edit), a value that generators built from round numbers never produce, a state that only exists after an error or an early return, the second file decoded or encoded by the same process - and put the breakage there. Everything a straightforward generator would produce must behave exactly as before.",
 }
 
 for p in props:
